@@ -203,5 +203,16 @@ func (r *GeneratorInterceptor) BindRTCPReader(reader interceptor.RTCPReader) int
 
 // ForcePLI sends a PLI request to the tracks matching the provided SSRCs.
 func (r *GeneratorInterceptor) ForcePLI(ssrc ...uint32) {
-	r.immediatePLINeeded <- ssrc
+	for {
+		select {
+		case r.immediatePLINeeded <- ssrc:
+			return
+		case <-r.close:
+			return
+		case pending := <-r.immediatePLINeeded:
+			// The loop did not pick up the previous request yet (it may not even be
+			// running): merge with it instead of blocking the caller.
+			ssrc = append(pending, ssrc...)
+		}
+	}
 }
